@@ -3,6 +3,7 @@ import InfluxQL.Lemmas.Query
 import InfluxQL.Lemmas.PMonad
 import InfluxQL.Lemmas.RegexGap
 import InfluxQL.Model.ParserCore
+import InfluxQL.Lemmas.RenderQuery
 /-!
 # C16 — statement separation, whitespace and comments do not change meaning
 
@@ -458,6 +459,68 @@ example : CommentRun ['b', ')'] (['/', '*', 'c', '*', '/'] ++ ([' '] ++ (['-', '
       (by intro c x h; simp at h; rw [← h.1]; decide) CommentRun.nil)
 example : (PState.init [' ', 'b', ')'] [] []).r.chars = [' '] ++ ([] ++ ['b', ')', eofRune]) := by decide
 example : Good (PState.init [' ', 'b', ')'] [] []) := ⟨Nat.le_refl _, by decide⟩
+
+/-! ## Statement level: the spelling of a statement does not change its AST (rendered families)
+
+`Lemmas/Render.lean` describes a statement text as `render` of a list of `(gap, piece)` pairs: every
+piece (keyword in any case, name bare or quoted, string, integer with leading zeros, duration
+literal, `=`) preceded by a gap — any sequence of whitespace runes and comments, possibly empty.
+`Props/C01.lean` proves for the administrative families that every legal rendering parses to the
+statement its parameters denote. `Lemmas/RenderQuery.lean` packages the families as `Family π σ`
+(`π` = parameters: names, numbers, clauses present; `σ` = spelling choices) — `zeroArgF` (SHOW
+DATABASES …), `singleNameF` (DROP DATABASE / MEASUREMENT / USER, SHOW GRANTS FOR), `nameOnDbF`,
+`showRetentionPoliciesF`, `killQueryF`, `dropShardF`, `createUserF`, `setPasswordF`, `grantF`,
+`revokeF`, `grantAdminF`, `revokeAdminF`, `createRetentionPolicyF`, `forModuleF`. -/
+
+open Render RenderQuery in
+/-- **C16 (b), statement level.** For every rendered family: two texts that are legal renderings of
+the same statement (same parameters `p`) — differing in the whitespace between tokens (any runs of
+space, tab, LF, CR LF), in comments inserted into that whitespace (any number, `/* … */` or
+`-- …⏎`), in keyword case, in the quoting of names and in leading zeros — parse to the same AST,
+namely the statement `F.ast p`. `k1`, `k2`: whatever follows the statement in either text (it must
+end the last piece, `Legal`, and not open an optional clause of the statement, `NextNot`; `[]`
+qualifies). Bound parameters and lower tables are irrelevant. -/
+theorem family_render_neutral {π σ : Type} (F : Family π σ) (p : π) (sp1 sp2 : σ) (hv1 : F.Valid p sp1)
+    (hv2 : F.Valid p sp2) (text1 text2 : Str) (params1 params2 : List (Str × BoundValue))
+    (tbl1 tbl2 : List (Char × Char)) (k1 k2 : Str)
+    (hfold1 : foldCR text1 = Render.render (F.spell p sp1).pieces ++ k1)
+    (hfold2 : foldCR text2 = Render.render (F.spell p sp2).pieces ++ k2)
+    (hL1 : Legal (F.spell p sp1).pieces (k1 ++ [eofRune])) (hL2 : Legal (F.spell p sp2).pieces (k2 ++ [eofRune]))
+    (hstop1 : ∀ t ∈ (F.spell p sp1).stop, NextNot (k1 ++ [eofRune]) t)
+    (hstop2 : ∀ t ∈ (F.spell p sp2).stop, NextNot (k2 ++ [eofRune]) t) :
+    parseStatementText text1 params1 tbl1 = .ok (F.ast p) ∧
+      parseStatementText text2 params2 tbl2 = parseStatementText text1 params1 tbl1 :=
+  RenderQuery.family_render_neutral F p sp1 sp2 hv1 hv2 text1 text2 params1 params2 tbl1 tbl2 k1 k2 hfold1 hfold2
+    hL1 hL2 hstop1 hstop2
+
+open Render RenderQuery in
+/-- The same without the `Family` packaging: two spelled statements of proved families that denote
+the same statement parse to the same AST. -/
+theorem spelled_render_neutral (x y : Spelled) (hx : x.OK) (hy : y.OK) (hxy : x.stmt = y.stmt) (text1 text2 : Str)
+    (params1 params2 : List (Str × BoundValue)) (tbl1 tbl2 : List (Char × Char)) (k1 k2 : Str)
+    (hfold1 : foldCR text1 = Render.render x.pieces ++ k1) (hfold2 : foldCR text2 = Render.render y.pieces ++ k2)
+    (hL1 : Legal x.pieces (k1 ++ [eofRune])) (hL2 : Legal y.pieces (k2 ++ [eofRune]))
+    (hstop1 : ∀ t ∈ x.stop, NextNot (k1 ++ [eofRune]) t) (hstop2 : ∀ t ∈ y.stop, NextNot (k2 ++ [eofRune]) t) :
+    parseStatementText text2 params2 tbl2 = parseStatementText text1 params1 tbl1 := by
+  rw [hx.parseStatementText text1 params1 tbl1 k1 hfold1 hL1 hstop1,
+    hy.parseStatementText text2 params2 tbl2 k2 hfold2 hL2 hstop2, hxy]
+
+open Render RenderQuery in
+/-- Non-vacuity: `DROP DATABASE foo` and `drop /* c */⏎⇥dataBASE "foo"` — lower / mixed case, a gap of
+blank, block comment, line feed, tab, and the name quoted — parse to the same statement. -/
+example : parseStatementText "DROP DATABASE foo".toList [] [] = .ok (.dropDatabase "foo".toList) ∧
+    parseStatementText "drop /* c */\n\tdataBASE \"foo\"".toList [] [] =
+      parseStatementText "DROP DATABASE foo".toList [] [] := by
+  refine family_render_neutral singleNameF
+    (⟨([.DROP, .DATABASE], .parseDropDatabaseStatement, .dropDatabase), by simp [C01.singleNameFamily]⟩, "foo".toList)
+    ([([], "DROP".toList), ([.ws ' '], "DATABASE".toList)], [.ws ' '], .bare)
+    ([([], "drop".toList), ([.ws ' ', .block " c ".toList, .ws '\n', .ws '\t'], "dataBASE".toList)], [.ws ' '], .quoted)
+    rfl rfl _ _ [] [] [] [] [] [] (by decide +kernel) (by decide +kernel) ?_ ?_ (by intro t ht; cases ht)
+    (by intro t ht; cases ht)
+  · exact legal_of_spaced _ _ _ _ (by decide +kernel) (by decide +kernel) (by decide +kernel)
+      (fun q _ => q.2.endOK_eof)
+  · exact legal_of_spaced _ _ _ _ (by decide +kernel) (by decide +kernel) (by decide +kernel)
+      (fun q _ => q.2.endOK_eof)
 
 /-! ## Negative examples: where the side conditions bite (kernel-checked) -/
 
